@@ -4,6 +4,7 @@
 import Proofs.FileWrite
 import Proofs.StreamFault
 import Proofs.ArmorCompose
+import Proofs.ToyPrims
 namespace AgeModel
 namespace Props.C13
 open Format Stream
@@ -107,6 +108,138 @@ theorem reader_sticky (A : AEAD) (C L : Nat) (k : Bytes) (r : Reader) (e : Outco
 
 /-- non-vacuity: destinations that do fail exist in the model (fail at byte offset 20, keep a prefix) -/
 example : ((({ acc := [], st := false } : Dst (DstSpec.atOffset 20 true false)).write (List.replicate 30 1)).2 = false) := by decide
+
+/-! ## Non-vacuity witnesses
+
+  Toy primitive suite (`Prims.toy`, 12-byte tag), chunk size 4, counter limit 2^88; a 100-byte random tape, one X25519
+  recipient, the header split into writes of 3, 0, 10 bytes and the rest; nine plaintext bytes written as `[1,2,3]`,
+  an empty write and `[4..9]`, then Close. -/
+
+/-- evaluation helpers: a pair / triple is its first component and the (decidable) rest -/
+theorem nv_pair {α β : Type} (x : α × β) (b : β) (h : x.2 = b) : x = (x.1, b) := by
+  cases x; cases h; rfl
+theorem nv_triple {α β γ : Type} (x : α × β × γ) (b : β) (c : γ) (h1 : x.2.1 = b) (h2 : x.2.2 = c) : x = (x.1, b, c) := by
+  obtain ⟨a, b', c'⟩ := x; cases h1; cases h2; rfl
+
+def nvTape : Bytes := (List.range 100).map Nat.toUInt8
+def nvRs : List Recipient := [.x25519 (List.replicate 32 5)]
+def nvSegs : List Bytes := [[1, 2, 3], [], [4, 5, 6, 7, 8, 9]]
+/-- the one stanza `Encrypt` produces for `nvRs` on `nvTape` -/
+def nvStanza : Stanza :=
+  { type := tX25519, args := [B64.encRaw (List.replicate 32 0)], body := nvTape.take 16 ++ List.replicate 12 0 }
+/-- the marshalled header, spelled without `Format.wrap` (well-founded recursion) so that it evaluates -/
+def nvHdr : Bytes :=
+  Format.intro ++ (stanzaPrefix ++ spaced [tX25519, B64.encRaw (List.replicate 32 0)] ++ [nl] ++ B64.encRaw nvStanza.body ++ [nl])
+    ++ footerPrefix ++ [sp] ++ B64.encRaw (List.replicate 32 0) ++ [nl]
+def nvNonce : Bytes := (nvTape.drop 48).take 16
+
+theorem nv_header : encryptHeader Prims.toy nvTape nvRs = .ok (nvTape.take 16, [nvStanza], nvTape.drop 48) := by
+  rfl
+
+theorem nv_marshal : marshal { stanzas := [nvStanza], mac := headerMAC Prims.toy (nvTape.take 16) [nvStanza] } = nvHdr := by
+  have hw : wrap (B64.encRaw nvStanza.body) = B64.encRaw nvStanza.body := wrap_short (by decide)
+  simp only [marshal, marshalNoMAC, marshalStanzas, marshalStanza, hw, List.append_nil]
+  rfl
+
+/-- a destination that fails the write crossing byte offset 1000 and already holds one byte -/
+def nvD : Dst (DstSpec.atOffset 1000 true false) := { acc := [0xAA], st := false }
+/-- … after the header (163 bytes) and the 16-byte nonce -/
+def nvD2 : Dst (DstSpec.atOffset 1000 true false) := { acc := [0xAA] ++ nvHdr ++ nvNonce, st := false }
+
+set_option maxRecDepth 20000 in
+/-- non-vacuity of `no_silent_loss`: `Encrypt` on the witness above succeeds, and so do the three Writes and the Close -/
+theorem no_silent_loss_nonvacuous :
+    0 < 4 ∧
+    encryptInit Prims.toy nvTape nvRs [3, 0, 10] nvD = (.ok (Writer.new nvD2, List.replicate 32 0, nvTape.drop 64), nvD2) ∧
+    (∀ r ∈ ((Writer.new nvD2).run Prims.toy.aead 4 (2^88) (List.replicate 32 0) (Props.C12.opsOf nvSegs)).2, r.2 = none) := by
+  refine ⟨by decide, ?_, by decide⟩
+  unfold encryptInit
+  rw [nv_header]
+  simp only
+  rw [nv_marshal]
+  rfl
+
+/-- the conclusion of `no_silent_loss` at that witness: the destination holds its byte and a complete file -/
+example : ∃ fk stanzas nonce,
+    ((Writer.new nvD2).run Prims.toy.aead 4 (2^88) (List.replicate 32 0) (Props.C12.opsOf nvSegs)).1.dst.acc
+      = [0xAA] ++ specFile Prims.toy 4 fk stanzas nonce [1, 2, 3, 4, 5, 6, 7, 8, 9] :=
+  no_silent_loss Prims.toy 4 (2^88) (by decide) nvTape nvRs [3, 0, 10] nvD nvD2 nvSegs _ _ _
+    no_silent_loss_nonvacuous.2.1 no_silent_loss_nonvacuous.2.2
+
+/-- how the armor writer's output is split into destination writes in the witness: 5 bytes, an empty split, 7, the rest -/
+def nvSegF : Armor.AWriter (DstSpec.atOffset 1000 true false) → Bytes → List Nat := fun _ _ => [5, 0, 7]
+/-- the armor writer over `nvD`, as a destination, after the header and the nonce -/
+def nvAD2 : Dst (armorDst (DstSpec.atOffset 1000 true false) nvSegF) :=
+  ((writeAll (armorDst.fresh (segF := nvSegF) nvD) (segmentBy [3, 0, 10] nvHdr)).1.write nvNonce).1
+
+set_option maxRecDepth 20000 in
+/-- non-vacuity of `no_silent_loss_armored`: the same `Encrypt` into an armor writer over `nvD`; Encrypt, the Writes,
+    the payload Close and the armor Close all succeed -/
+theorem no_silent_loss_armored_nonvacuous :
+    ∃ a' : Armor.AWriter (DstSpec.atOffset 1000 true false),
+    0 < 4 ∧
+    encryptInit Prims.toy nvTape nvRs [3, 0, 10] (armorDst.fresh (segF := nvSegF) nvD)
+      = (.ok (Writer.new nvAD2, List.replicate 32 0, nvTape.drop 64), nvAD2) ∧
+    (∀ r ∈ ((Writer.new nvAD2).run Prims.toy.aead 4 (2^88) (List.replicate 32 0) (Props.C12.opsOf nvSegs)).2, r.2 = none) ∧
+    ((Writer.new nvAD2).run Prims.toy.aead 4 (2^88) (List.replicate 32 0) (Props.C12.opsOf nvSegs)).1.dst.st.close = (a', none) ∧
+    a'.dst.acc.length = 374 := by
+  refine ⟨(((Writer.new nvAD2).run Prims.toy.aead 4 (2^88) (List.replicate 32 0) (Props.C12.opsOf nvSegs)).1.dst.st.close).1,
+    by decide, ?_, by decide, nv_pair _ _ (by decide), by decide⟩
+  unfold encryptInit
+  rw [nv_header]
+  simp only
+  rw [nv_marshal]
+  rfl
+
+
+/-- non-vacuity of `writer_sticky`: a writer whose destination failed at byte offset 20 during the second chunk of a
+    9-byte Write has recorded `dstErr`; a closed writer has recorded `closed` -/
+theorem writer_sticky_nonvacuous :
+    let d : Dst (DstSpec.atOffset 20 true false) := { acc := [], st := false }
+    let w := ((Writer.new d).write AEAD.toy 4 (2^88) [7, 7] [1, 2, 3, 4, 5, 6, 7, 8, 9]).1
+    let w' := ((Writer.new d).close AEAD.toy 4 (2^88) [7, 7]).1
+    w.err = some .dstErr ∧ w.dst.acc.length = 20 ∧ w'.err = some .closed := by
+  decide
+
+/-- non-vacuity of `write_error_recorded`: a writer over a destination failing at byte offset 20 that has accepted
+    `[1,2,3]` (so `WInv … [1,2,3]` holds, by `write_ok`) reports `dstErr` on the next Write, of six bytes -/
+theorem write_error_recorded_nonvacuous :
+    let d : Dst (DstSpec.atOffset 20 true false) := { acc := [0xAA], st := false }
+    let w := ((Writer.new d).write AEAD.toy 4 (2^88) [7, 7] [1, 2, 3]).1
+    ∃ w', 0 < 4 ∧ WInv AEAD.toy 4 [7, 7] d.acc w [1, 2, 3] ∧
+      w.write AEAD.toy 4 (2^88) [7, 7] [4, 5, 6, 7, 8, 9] = (w', 0, some .dstErr) := by
+  intro d w
+  refine ⟨(w.write AEAD.toy 4 (2^88) [7, 7] [4, 5, 6, 7, 8, 9]).1, by decide, ?_, nv_triple _ _ _ (by decide) (by decide)⟩
+  exact (write_ok AEAD.toy 4 (2^88) (by decide) [7, 7] d.acc (Writer.new d) w [] [1, 2, 3] 3
+    (WInv_new AEAD.toy 4 [7, 7] d) (nv_triple _ _ _ (by decide) (by decide))).1
+
+/-- non-vacuity of `src_fault_surfaces`: the source fails after 20 of the 45 bytes of a three-chunk payload (inside
+    the second chunk); 30 reads of 2 bytes -/
+theorem src_fault_surfaces_nonvacuous :
+    let c := encrypt AEAD.toy 4 [7, 7] [1, 2, 3, 4, 5, 6, 7, 8, 9]
+    let sizes := List.replicate 30 2
+    0 < 4 + AEAD.toy.T ∧ c.length < 2^88 ∧ (∀ s ∈ sizes, 0 < s) ∧
+    (dec AEAD.toy 4 [7, 7] true 0 (c.take 20)).1.length + (c.take 20).length + 1 < sizes.length ∧
+    c.take 20 ≠ c ∧ dec AEAD.toy 4 [7, 7] true 0 (c.take 20) = ([1, 2, 3, 4], .srcErr) := by
+  decide
+
+/-- non-vacuity of `reader_sticky`: the reader of that failing source after it has been read to the error, and a
+    reader that hit a damaged chunk, have a recorded error and nothing unread -/
+theorem reader_sticky_nonvacuous :
+    let c := encrypt AEAD.toy 4 [7, 7] [1, 2, 3, 4, 5, 6, 7, 8, 9]
+    let r := ((Reader.new ⟨c.take 20, true⟩).drain AEAD.toy 4 (2^88) [7, 7] (List.replicate 30 2)).1
+    let r' := ((Reader.new ⟨c.set 30 0xFF, false⟩).drain AEAD.toy 4 (2^88) [7, 7] [4, 4]).1
+    r.err = some .srcErr ∧ r.unread = [] ∧ r'.err = some .authFail ∧ r'.unread = [] := by
+  decide
+
+/-- the conclusion of `no_silent_loss_armored` at its witness: the destination holds its byte and the complete armor
+    of a complete file -/
+example : ∃ (a' : Armor.AWriter (DstSpec.atOffset 1000 true false)) (fk : Bytes) (stanzas : List Stanza) (nonce : Bytes),
+    a'.dst.acc = [0xAA] ++ Armor.armor (specFile Prims.toy 4 fk stanzas nonce [1, 2, 3, 4, 5, 6, 7, 8, 9]) := by
+  obtain ⟨a', hC, hinit, hall, hclose, _⟩ := no_silent_loss_armored_nonvacuous
+  obtain ⟨fk, stanzas, nonce, h⟩ := no_silent_loss_armored nvSegF Prims.toy 4 (2^88) hC nvTape nvRs [3, 0, 10] nvD nvSegs
+    nvAD2 _ _ _ hinit hall a' hclose
+  exact ⟨a', fk, stanzas, nonce, h⟩
 
 end Props.C13
 end AgeModel
